@@ -569,3 +569,81 @@ fires('m187-limiter-rewind-no-propagation', ['C19'], [(UTIL, "    def rewind(sel
 fires('m188-cache-twice', ['C19'], [(UTIL, "        if block is not None:\n            self._cache.append(block)\n        return block", "        if block is not None:\n            self._cache.append(block)\n            if len(block) < size:\n                self._cache.append(block)\n        return block")])
 fires('m189-later-rewind-refreezes', ['C19'], [(UTIL, "        if self._read_from_cache:\n            self._audio_source.rewind()\n", "        if self._read_from_cache:\n            self._audio_source.rewind()\n            self._data = self._data[: len(self._data) // 2 * 2]\n")])
 fires('m190-flag-never-set', ['C19'], [(UTIL, "            self.open()\n            self._read_from_cache = True\n", "            self.open()\n")])
+
+# ------------------------------------------------------------------ C12 worker protocol
+fires('m200-run-breaks-on-timeout', ['C12'], [(WORKERS, "            if message is not None:\n                self._process_message(message)\n        self._post_process()", "            if message is None:\n                break\n            self._process_message(message)\n        self._post_process()")],
+      'a worker exits on its first queue timeout (slow source)')
+fires('m201-notify-break', ['C12'], [(WORKERS, "        for observer in self._observers:\n            observer.send(message)\n", "        for observer in self._observers:\n            observer.send(message)\n            break\n")])
+fires('m202-ids-from-zero', ['C12', 'C15'], [(WORKERS, "enumerate(self._audio_region_gen, start=1)", "enumerate(self._audio_region_gen, start=0)")])
+fires('m203-stop-before-loop', ['C12'], [(WORKERS, "        start_processing_timestamp = datetime.now()\n", "        start_processing_timestamp = datetime.now()\n        self._notify_observers(_STOP_PROCESSING)\n"),
+                                         (WORKERS, "            self._notify_observers((_id, audio_region))\n        self._notify_observers(_STOP_PROCESSING)\n", "            self._notify_observers((_id, audio_region))\n")])
+fires('m204-bounded-queue', ['C12'], [(WORKERS, "        self._inbox = Queue()\n", "        self._inbox = Queue(maxsize=1)\n")], 'a slow observer blocks the tokenizer; with join ordering this can deadlock')
+fires('m205-join-before-send', ['C12', 'C14'], [(WORKERS, "        self.send(_STOP_PROCESSING)\n        self.join()\n", "        self.join()\n        self.send(_STOP_PROCESSING)\n")])
+fires('m206-blocking-get', ['C12'], [(WORKERS, "            message = self._inbox.get(timeout=self._timeout)\n", "            message = self._inbox.get()\n")])
+fires('m207-notify-only-with-logger', ['C12'], [(WORKERS, "            if self._logger is not None:\n                message = self._log_format.format(detection)\n                self._log(message)\n            self._notify_observers((_id, audio_region))", "            if self._logger is not None:\n                message = self._log_format.format(detection)\n                self._log(message)\n                self._notify_observers((_id, audio_region))")])
+fires('m208-start-all-forgets-observers', ['C12'], [(WORKERS, "    def start_all(self):\n        for observer in self._observers:\n            observer.start()\n        self.start()", "    def start_all(self):\n        self.start()")])
+fires('m209-detection-fields-swapped', ['C12'], [(WORKERS, "                _id,\n                audio_region.meta.start,\n                audio_region.meta.end,\n                audio_region.duration,", "                _id,\n                audio_region.meta.end,\n                audio_region.meta.start,\n                audio_region.duration,")])
+fires('m210-post-process-joins-self', ['C12'], [(WORKERS, "    def _post_process(self):\n        pass\n", "    def _post_process(self):\n        self.join()\n")])
+fires('m211-data-processed-twice', ['C12'], [(WORKERS, "            if message is not None:\n                self._process_message(message)\n", "            if message is not None:\n                self._process_message(message)\n                if self._inbox.empty():\n                    self._process_message(message)\n")])
+silent('t200-run-continue-form', ['C12', 'C13', 'C14'], [(WORKERS, "            if message is not None:\n                self._process_message(message)\n        self._post_process()", "            if message is None:\n                continue\n            self._process_message(message)\n        self._post_process()")])
+
+# ------------------------------------------------------------------ C13 savers
+fires('m220-send-only-when-cache-nonempty', ['C13'], [(WORKERS, "        data = self._reader.read()\n        if data is not None:\n            self.send(data)", "        data = self._reader.read()\n        if data is not None and (self._cache or self._total_cached == 0):\n            self.send(data)")])
+fires('m221-post-process-no-drain', ['C13', 'C14'], [(WORKERS, """    def _post_process(self):
+        while True:
+            try:
+                data = self._inbox.get_nowait()
+                if data != _STOP_PROCESSING:
+                    self._cache.append(data)
+                    self._total_cached += len(data)
+            except Empty:
+                break
+        self._write_cached_data()
+        self._wfp.close()""", """    def _post_process(self):
+        self._write_cached_data()
+        self._wfp.close()""")])
+fires('m222-silence-after-event', ['C13'], [(WORKERS, "        if not self._first_event:\n            self._wfp.writeframes(self._silence_data)\n        else:\n            self._first_event = False\n        self._wfp.writeframes(data)", "        self._wfp.writeframes(data)\n        self._wfp.writeframes(self._silence_data)")])
+fires('m223-wave-width-from-channels', ['C13'], [(WORKERS, "        self._wfp.setsampwidth(self.sw)\n        self._wfp.setnchannels(self.ch)", "        self._wfp.setsampwidth(self.ch)\n        self._wfp.setnchannels(self.sw)")])
+fires('m224-flush-keeps-cache', ['C13'], [(WORKERS, "            self._wfp.writeframes(data)\n            self._cache = []\n            self._total_cached = 0", "            self._wfp.writeframes(data)\n            self._total_cached = 0")])
+fires('m225-close-before-flush', ['C13', 'C14'], [(WORKERS, "        self._write_cached_data()\n        self._wfp.close()\n\n    def _write_cached_data", "        self._wfp.close()\n        self._write_cached_data()\n\n    def _write_cached_data")])
+fires('m226-drain-caches-stop', ['C13'], [(WORKERS, "                data = self._inbox.get_nowait()\n                if data != _STOP_PROCESSING:\n                    self._cache.append(data)", "                data = self._inbox.get_nowait()\n                if data is not None:\n                    self._cache.append(data)")])
+fires('m227-joiner-flag-never-cleared', ['C13'], [(WORKERS, "        else:\n            self._first_event = False\n        self._wfp.writeframes(data)", "        self._wfp.writeframes(data)")])
+fires('m228-region-saver-end-from-start', ['C13'], [(WORKERS, "            start=audio_region.meta.start,\n            end=audio_region.meta.end,\n            duration=audio_region.duration,\n        )\n        filename = audio_region.save(", "            start=audio_region.meta.start,\n            end=audio_region.meta.start,\n            duration=audio_region.duration,\n        )\n        filename = audio_region.save(")])
+fires('m229-joiner-drain-skips-events', ['C13'], [(WORKERS, "                if message != _STOP_PROCESSING:\n                    _, audio_event = message\n                    self._write_audio_event(audio_event.data)", "                if message != _STOP_PROCESSING:\n                    pass")])
+fires('m230-saver-returns-copy-trimmed', ['C13'], [(WORKERS, "        else:\n            self.send(_STOP_PROCESSING)\n        return data", "        else:\n            self.send(_STOP_PROCESSING)\n        return data[:-2] if data else data")])
+silent('t220-flush-position', ['C13'], [(WORKERS, "        self._cache.append(data)\n        self._total_cached += len(data)\n        if self._total_cached >= self._cache_size:\n            self._write_cached_data()", "        self._cache.append(data)\n        self._total_cached += len(data)\n        if self._total_cached > self._cache_size:\n            self._write_cached_data()")], 'when the cache is flushed affects when bytes are written, not which')
+
+# ------------------------------------------------------------------ C14 stop
+fires('m240-read-without-poll', ['C14'], [(WORKERS, "    def read(self):\n        if self._stop_requested():\n            return None\n        else:\n            return self._reader.read()", "    def read(self):\n        return self._reader.read()")])
+fires('m241-close-without-stop', ['C14'], [(WORKERS, "    def close(self):\n        self._reader.close()\n        self.stop()\n", "    def close(self):\n        self._reader.close()\n")])
+fires('m242-handler-without-stop-all', ['C14'], [(CMD, "        if tokenizer_worker is not None:\n            tokenizer_worker.stop_all()\n", "        if tokenizer_worker is not None:\n            tokenizer_worker.stop()\n")])
+fires('m243-poll-blocks', ['C14'], [(WORKERS, "            message = self._inbox.get_nowait()\n            if message == _STOP_PROCESSING:\n                return True", "            message = self._inbox.get(timeout=self._timeout)\n            if message == _STOP_PROCESSING:\n                return True")])
+fires('m244-poll-inverted', ['C14'], [(WORKERS, "            if message == _STOP_PROCESSING:\n                return True\n        except Empty:\n            return False", "            if message == _STOP_PROCESSING:\n                return False\n        except Empty:\n            return True")])
+fires('m245-stop-all-reader-first', ['C14'], [(WORKERS, "    def stop_all(self):\n        self.stop()\n        for observer in self._observers:\n            observer.stop()\n        self._reader.close()", "    def stop_all(self):\n        self._reader.close()\n        self.stop()\n        for observer in self._observers:\n            observer.stop()")])
+fires('m246-stop-all-skips-observers', ['C14'], [(WORKERS, "    def stop_all(self):\n        self.stop()\n        for observer in self._observers:\n            observer.stop()\n        self._reader.close()", "    def stop_all(self):\n        self.stop()\n        self._reader.close()")])
+fires('m247-try-excludes-wait-loop', ['C14'], [(CMD, "        tokenizer_worker.start_all()\n\n        while True:\n            time.sleep(1)\n            if len(threading.enumerate()) == 1:\n                raise EndOfProcessing\n\n    except (KeyboardInterrupt, EndOfProcessing):", "        tokenizer_worker.start_all()\n\n    except (KeyboardInterrupt, EndOfProcessing):")])
+
+# ------------------------------------------------------------------ C15 command line
+fires('m260-min-dur-from-max-duration', ['C15'], [(CMDU, "        \"min_dur\": args_ns.min_duration,\n", "        \"min_dur\": args_ns.max_duration,\n")])
+fires('m261-max-silence-default', ['C15'], [(CMD, "            dest=\"max_silence\",\n            type=float,\n            default=0.3,", "            dest=\"max_silence\",\n            type=float,\n            default=0.2,")])
+fires('m262-divisor-6000', ['C15'], [(UTIL, "            mins, millis = divmod(millis, 60000)\n", "            mins, millis = divmod(millis, 6000)\n")])
+fires('m263-mins-from-secs', ['C15'], [(UTIL, "            return fmt.format(hrs=hrs, mins=mins, secs=secs, millis=millis)\n", "            return fmt.format(hrs=hrs, mins=secs, secs=secs, millis=millis)\n")])
+fires('m264-argument-error-status-0', ['C15'], [(CMD, "        except ArgumentError as exc:\n            print(exc, file=sys.stderr)\n            return 1", "        except ArgumentError as exc:\n            print(exc, file=sys.stderr)\n            return 0")])
+fires('m265-rate-type-float', ['C15'], [(CMD, "            dest=\"sampling_rate\",\n            type=int,", "            dest=\"sampling_rate\",\n            type=float,")])
+fires('m266-quiet-inverted', ['C15'], [(CMDU, "    if not kwargs[\"quiet\"]:\n", "    if kwargs[\"quiet\"]:\n")])
+fires('m267-printf-end-uses-start', ['C15'], [(WORKERS, "            start=self._format_time(audio_region.meta.start),\n            end=self._format_time(audio_region.meta.end),", "            start=self._format_time(audio_region.meta.start),\n            end=self._format_time(audio_region.meta.start),")])
+fires('m268-S-two-decimals', ['C15'], [(UTIL, "            return \"{:.3f}\".format(seconds)\n", "            return \"{:.2f}\".format(seconds)\n")])
+fires('m269-I-rounds', ['C15'], [(UTIL, "            return \"{0}\".format(int(seconds * 1000))\n", "            return \"{0}\".format(round(seconds * 1000))\n")])
+fires('m270-large-file-dropped', ['C15'], [(CMDU, "        \"large_file\": args_ns.large_file,\n", "        \"large_file\": False,\n")])
+fires('m271-strict-and-drop-swapped', ['C15'], [(CMDU, "        \"drop_trailing_silence\": args_ns.drop_trailing_silence,\n        \"strict_min_dur\": args_ns.strict_min_duration,", "        \"drop_trailing_silence\": args_ns.strict_min_duration,\n        \"strict_min_dur\": args_ns.drop_trailing_silence,")])
+fires('m272-millis-two-digits', ['C15'], [(UTIL, "        fmt = fmt.replace(\"%i\", \"{millis:03d}\")\n", "        fmt = fmt.replace(\"%i\", \"{millis:02d}\")\n")])
+fires('m273-unknown-directive-accepted', ['C15'], [(UTIL, """        try:
+            i = fmt.index("%")
+            raise TimeFormatError(
+                "Unknown time format directive '{0}'".format(fmt[i : i + 2])
+            )
+        except ValueError:
+            pass
+""", "")])
+fires('m274-analysis-window-key', ['C15'], [(CMDU, "        \"block_dur\": args_ns.analysis_window,\n", "        \"analysis_window\": args_ns.analysis_window,\n")], '-a no longer reaches the reader (AudioReader takes block_dur)')
+silent('t260-help-text', ['C15'], [(CMD, "            help=\"Minimum duration of a valid audio event in seconds. \"", "            help=\"Shortest duration of a valid audio event in seconds. \"")])
